@@ -1058,6 +1058,27 @@ def bloch_messiah(S, tol=1e-10, rounding=9):
 
         pmat1 = block_diag(*(u_list + v_list))
 
+        for start_i, stop_i in zip(start_is, stop_is):
+            if stop_i - start_i > 1 and np.round(st[start_i, start_i], rounding) == 1:
+                # Two or more unsqueezed modes: s and 1/s coincide, so their eigenvectors span a
+                # single subspace in which the two halves are not separated. Build a symplectic
+                # basis (e_1..e_k, f_1..f_k) of that subspace instead of rotating the halves separately.
+                idx = list(range(start_i, stop_i)) + list(range(n + start_i, n + stop_i))
+                w = qomega[np.ix_(idx, idx)].real
+                basis = np.zeros((len(idx), 0))
+                e_list, f_list = [], []
+                for col in np.identity(len(idx)):
+                    res = col - basis @ (basis.T @ col)
+                    if np.linalg.norm(res) > 1e-6:
+                        e = res / np.linalg.norm(res)
+                        f = w.T @ e
+                        e_list.append(e)
+                        f_list.append(f)
+                        basis = np.column_stack([basis, e, f])
+                    if len(e_list) == stop_i - start_i:
+                        break
+                pmat1[np.ix_(idx, idx)] = np.column_stack(e_list + f_list)
+
         st1 = pmat1.T @ pmat @ np.diag(ss) @ pmat @ pmat1
         ut1 = uss @ pmat @ pmat1
         v1 = np.transpose(ut1) @ u
